@@ -495,7 +495,12 @@ def r14_1_dispatchers(ctx, rule: str = 'R14.1') -> List[Ob]:
             kws = sa[3] if len(sa) > 3 else ()
             fw = len(kws) == 1 and kws[0][0] == '**' and kws[0][1] == C.atom(('n', kw))
             call_node = node.value if isinstance(node, ast.Return) and isinstance(node.value, ast.Call) else node
-            arms[key] = (sa[1], [C.show(x) for x in sa[2]], fw, call_node)
+            shown = [C.show(x) if not (isinstance(x, tuple) and x and x[0] == 'star') else None for x in sa[2]]
+            if key == 2 and len(sa[2]) == 1 and isinstance(sa[2][0], tuple) and sa[2][0][0] == 'star' \
+                    and sa[2][0][1] == C.atom(('n', va)):
+                # `bi(*args)` under len(args) == 2 passes args[0], args[1]
+                shown = [f"{va}[0]", f"{va}[1]"]
+            arms[key] = (sa[1], [x if x is not None else '*' for x in shown], fw, call_node)
         if not shape_ok or 'else' not in arms or 1 not in arms:
             obs.append(inconclusive(rule, f"{f.name}: var-args dispatcher is a single if/elif/else on len(args) whose arms are "
                                     f"`return g(..., **kwargs)`", f.loc(), construct=_fn(f)))
